@@ -437,6 +437,10 @@ pub fn check(prop: &str, sc: &Scenario, rr: &RunResult) -> Vec<Violation> {
         "C12" => crate::oracle2::c12(sc, rr),
         "C13" => crate::oracle2::c13(sc, rr),
         "C14" => crate::oracle2::c14(sc, rr),
+        "C15" => crate::oracle3::c15(sc, rr),
+        "C18" => crate::oracle3::c18(sc, rr),
+        "C19" => crate::oracle3::c19(sc, rr),
+        "C20" => crate::oracle3::c20(sc, rr),
         "C16" => crate::oracle2::c16(sc, rr),
         "C17" => crate::oracle2::c17(sc, rr),
         _ => vec![],
